@@ -36,6 +36,7 @@ def parseOp? (tok : String) : Option Op :=
   | ["sets", t, a, b, c, els] => do
       pure (Op.setSlice (← t.toNat?) ⟨← parseOptInt? a, ← parseOptInt? b, ← parseOptInt? c⟩ (← parseElems? els))
   | ["iop", t, code, k] => do pure (Op.iop (← t.toNat?) (← code.toNat?) (← k.toInt?))
+  | ["iopf", t, code, k] => do pure (Op.iopF (← t.toNat?) (← code.toNat?) (← k.toInt?))
   | ["op", t, code, k] => do pure (Op.op (← t.toNat?) (← code.toNat?) (← k.toInt?))
   | ["iops", t, v, code] => do pure (Op.iopSeq (← t.toNat?) (← v.toNat?) (← code.toNat?))
   | ["ops", t, v, code] => do pure (Op.opSeq (← t.toNat?) (← v.toNat?) (← code.toNat?))
@@ -57,6 +58,7 @@ def showErr : Err → String
   | .index => "ERR:IndexError"
   | .value => "ERR:ValueError"
   | .stopIter => "ERR:StopIteration"
+  | .type => "ERR:TypeError"
   | .bad => "BAD"
 
 def parseKV? (s : String) : Option (Nat × Nat) :=
